@@ -1,4 +1,5 @@
 import Netconan.Proofs.Lines
+import Netconan.Proofs.SecretFrame
 import Netconan.Props.C06
 import Netconan.Props.C11
 /-!
@@ -54,6 +55,48 @@ theorem secret_stage_keeps_line_frame (x : Ext) (fs groups) (salt input : List C
   | ok p =>
     simp [hg] at h
     exact ⟨ld, body, tr, p.1, hc, by rw [← h.1, List.append_assoc]⟩
+
+/-- **The secret stage changes a line only inside spans matched by one of its patterns.**  The body of the
+line (between the re-attached frame) is rewritten in finitely many rounds; each round cuts the current text
+into kept characters and spans matched by one pattern of the configured groups, and replaces only the spans
+(`Secrets.Rew`, `Secrets.FrameStep`).  For every group list, salt, lookup state and line. -/
+theorem secret_stage_changes_only_matched_spans (x : Ext) (fs groups) (salt input : List Char) (lk : Lookup)
+    (out lk' logs) (h : replaceMatchingItem x fs groups salt input lk = .ok (out, lk', logs)) :
+    ∃ leading body trailing body',
+      leading ++ body ++ trailing =
+        (splitLine x.isSpace input).1 ++ joinSp (splitLine x.isSpace input).2.1 ++ (splitLine x.isSpace input).2.2 ∧
+      out = leading ++ body' ++ trailing ∧
+      Rew (groups.flatten.map (·.1.1)) body body' := by
+  unfold replaceMatchingItem at h
+  simp only at h
+  have hc := extractEnclosing_concat ((joinSp (splitLine x.isSpace input).2.1).length + 1)
+    (joinSp (splitLine x.isSpace input).2.1) (splitLine x.isSpace input).1 (splitLine x.isSpace input).2.2
+  revert hc h
+  generalize extractEnclosing _ _ _ _ = e
+  obtain ⟨ld, body, tr⟩ := e
+  intro h hc
+  simp only at h hc
+  cases hg : applyGroups x fs salt groups body lk [] with
+  | error e => simp [hg] at h
+  | ok p =>
+    obtain ⟨o, l, g⟩ := p
+    simp [hg] at h
+    exact ⟨ld, body, tr, o, hc, by rw [← h.1, List.append_assoc], applyGroups_rew x fs salt groups body lk [] o l g hg⟩
+
+/-- a line no pattern of the groups matches anywhere is returned verbatim (the rewriting has no round to make):
+if every round's span list is empty the text is unchanged -/
+theorem frameStep_no_span (r : Regex.Re) (a b : List Char) (h : FrameStep r a b)
+    (hn : ∀ z0 z1 cs fuel, Regex.matchAt r fuel z0 ≠ .ok (z1, cs)) : a = b := by
+  obtain ⟨segs, h1, h2, h3⟩ := h
+  rw [h1, h2]
+  congr 1
+  apply List.map_congr_left
+  intro sg hsg
+  cases sg with
+  | keep c => rfl
+  | rep t rp =>
+    obtain ⟨z0, z1, cs, fuel, hm, _⟩ := h3 _ hsg t rp rfl
+    exact absurd hm (hn z0 z1 cs fuel)
 
 open Netconan.Regex in
 theorem disjointFrom_spec (a b : List (Nat × Nat)) (h : C06.disjointFrom a b = true) (c : Char)
